@@ -163,6 +163,10 @@ def item_alts(ctx, item):
                 cats |= set(re.findall(r'=(\w+)', labs[i])) - {'Some', 'None', 'True', 'False', 'Ok'}     # (an enclosing `let Some(..) = d.resolved()` is not a category)
             ok = len(en) == 1 and len(st) == 1 and 'Defined' in labs[en[0]] and 'Enum' in labs[en[0]] and 'Defined' in labs[st[0]] and 'Type' in labs[st[0]] \
                 and all(parts[i].strip() == '' for i in rest) and cats == {'Predefined', 'Extern'} and not any('Defined' in re.findall(r'=(\w+)', labs[i]) for i in rest)
+            if ok and (en[0], st[0]) != (0, 1):
+                # arms written in another order (or the two empty ones merged): later rules address the alternatives as
+                # [enum, struct, nothing, nothing]
+                parts = [parts[en[0]], parts[st[0]], '', '']
         if not ok and len(parts) == 2 and len(labs) == 2 and getattr(ctx, 'items_defined_only', False):
             # no branch on the category here: items without a Rust definition never reach this function, because the loop that
             # writes the module takes only `category() == Defined` (C14-D5|all-items-written saw that filter, and only that one)
